@@ -295,6 +295,20 @@ func (pc *propCheck) replayCommand() replayResult {
 	if b, err := os.ReadFile(filepath.Join(out2, "example_com", "cmdw", "bad.v")); err != nil || !strings.Contains(string(b), "Definition Ok") || strings.Contains(string(b), "Definition Bad") {
 		return fail("goose -ignore-errors: bad.v should contain exactly the declarations that translated (Ok, not Bad); err=%v", err)
 	}
+	// a package in which nothing translates: no file without -ignore-errors, a file with exactly
+	// the declarations that translated (none) with it -- in particular a stale file is replaced
+	allbadV := filepath.Join(out2, "example_com", "cmdw", "allbad.v")
+	if exists(filepath.Join(out1, "example_com", "cmdw", "allbad.v")) {
+		return fail("goose ./... wrote allbad.v for a package in which no declaration translated (no -ignore-errors)")
+	}
+	if b, err := os.ReadFile(allbadV); err != nil || strings.Contains(string(b), "Definition OnlyBad") {
+		return fail("goose -ignore-errors ./...: allbad.v should exist and contain exactly the declarations that translated (none); err=%v", err)
+	}
+	os.WriteFile(allbadV, []byte("(* stale *)\nDefinition OnlyBad: val := #0.\n"), 0o644)
+	run(out2, "-ignore-errors", "./...")
+	if b, err := os.ReadFile(allbadV); err != nil || strings.Contains(string(b), "Definition OnlyBad") {
+		return fail("goose -ignore-errors ./... left a stale allbad.v (with a definition that did not translate) in place; err=%v", err)
+	}
 	code, _ = run(out1, "./good")
 	if code != 0 {
 		return fail("goose ./good exits %d, expected 0", code)
